@@ -24,7 +24,9 @@ class P(vlib.Prop):
             "length 0..5 (quick) / 0..7 (thorough) x {mutable, read-only input}, plus random vectors of length 6..12; "
             "each with random initial content, per-consumer error results (nil / plain / multierr) and a random "
             "mutation script (append / set / remove programs run by declared AND undeclared writers, inline during "
-            "the call or from a goroutine, between any two consumer calls and after ConsumeX returned). "
+            "the call or from a goroutine, between any two consumer calls and after ConsumeX returned) and a caller's context "
+            "that is live / cancelled / past its deadline, ending before ConsumeX, while the k-th consumer call is in progress "
+            "(that consumer fails with the context error) or after the return. "
             "graph: real graphs built by service/internal/graph.Build from generated pipeline trees (processor and "
             "exporter capability vectors, same-signal connectors feeding 1..3 further pipelines), advertised "
             "MutatesData of every pipeline and of the consumer handed to the receiver compared with the model; one payload "
